@@ -415,7 +415,13 @@ def run(rep, thorough):
         stats["models"] += 1
         for j in range(norch):
             orch = None if j == 0 else gen_orchestration(r)
-            case = {"cfg": cfg, "kind": "netgen", "orchestration": orch, "builder": "dicts"}
+            cfg_j = cfg
+            if j > 0:
+                # ... and the arcs listed in another order (the river order must not depend on it; a stream of its own)
+                cfg_j = dict(cfg)
+                cfg_j["arcs"] = list(cfg["arcs"])
+                random.Random(f"arcorder{i}:{j}").shuffle(cfg_j["arcs"])
+            case = {"cfg": cfg_j, "kind": "netgen", "orchestration": orch, "builder": "dicts"}
             info = evaluate(rep, case, stats, seen)
             stats["orchestrations"] += 1
             if orch is not None:
